@@ -14,7 +14,7 @@ conflict checks.
 from __future__ import annotations
 
 import logging
-from dataclasses import dataclass
+from dataclasses import dataclass, field
 from enum import Enum
 from typing import TYPE_CHECKING, Any, Protocol, runtime_checkable
 
@@ -99,6 +99,9 @@ class _CommitLogEntry:
     version: int
     keys_written: frozenset[str]
     keys_read: frozenset[str]
+    # Value each written key had just before this commit (None = absent);
+    # lets later readers reconstruct the state at their snapshot version.
+    before_images: dict[str, Any] = field(default_factory=dict)
 
 
 # ---------------------------------------------------------------------------
@@ -162,6 +165,14 @@ class StorageTransaction:
 
         # Read from underlying store
         value = yield from self._manager._store.get(key)
+
+        # Snapshot reads: if a transaction that committed after this one began
+        # overwrote the key, return what the key held at the snapshot, i.e. the
+        # before-image of the first such commit.
+        if self._isolation != IsolationLevel.READ_COMMITTED:
+            for entry in self._manager._commit_log:
+                if entry.version > self._snapshot_version and key in entry.before_images:
+                    return entry.before_images[key]
         return value
 
     def write(self, key: str, value: Any) -> Generator[float]:
@@ -199,7 +210,8 @@ class StorageTransaction:
             logger.debug("[tx-%d] Aborted due to conflict", self._tx_id)
             return False
 
-        # Apply writes
+        # Apply writes, remembering the values they replace
+        before_images = {key: self._manager._store.get_sync(key) for key in self._write_set}
         for key, value in self._write_set.items():
             self._manager._store.put_sync(key, value)
 
@@ -210,6 +222,7 @@ class StorageTransaction:
             version=self._manager._version,
             keys_written=frozenset(self._write_set.keys()),
             keys_read=frozenset(self._read_set),
+            before_images=before_images,
         )
         self._manager._commit_log.append(entry)
 
